@@ -1,8 +1,8 @@
 #!/bin/bash
 # Runs the quick check of each property against each hand-written mutant (mutants/<property>/*.patch) and each seeded change
 # (seeded/<id>/patch.diff, property from meta.json) in a scratch worktree; writes selftest/mutants.json.
-# usage: tools/selftest_mutants.sh [mutants|seeded|all] [name-filter]
-HERE="$(dirname "$(readlink -f "$0")")/.."; cd "$HERE"; WHAT="${1:-all}"; FILTER="${2:-}"
+# usage: tools/selftest_mutants.sh [mutants|seeded|all] [name-filter] [output-tag]
+HERE="$(dirname "$(readlink -f "$0")")/.."; cd "$HERE"; WHAT="${1:-all}"; FILTER="${2:-}"; TAG="${3:-$WHAT}"
 mkdir -p selftest; TMP=$(mktemp); echo "[" > "$TMP"; first=1
 run() { # patch property label
   local t0=$(date +%s); local out; out=$(tools/try_patch.sh "$1" "$2" 2>&1); local verdict=$(echo "$out" | head -1 | cut -d' ' -f1); local t1=$(date +%s)
@@ -13,4 +13,4 @@ run() { # patch property label
 }
 if [ "$WHAT" = mutants ] || [ "$WHAT" = all ]; then for p in mutants/*/*.patch; do case "$p" in *"$FILTER"*) prop=$(basename "$(dirname "$p")"); run "$p" "$prop" "mutants/$prop/$(basename "$p" .patch)";; esac; done; fi
 if [ "$WHAT" = seeded ] || [ "$WHAT" = all ]; then for d in seeded/*/; do [ -f "$d/patch.diff" ] || continue; case "$d" in *"$FILTER"*) prop=$(python3 -c "import json;print(json.load(open('$d/meta.json'))['property'])"); run "$d/patch.diff" "$prop" "seeded/$(basename "$d")";; esac; done; fi
-echo "]" >> "$TMP"; python3 -c "import json,sys; json.dump(json.load(open(sys.argv[1])), open('selftest/mutants.$WHAT.json','w'), indent=1)" "$TMP"; rm -f "$TMP"
+echo "]" >> "$TMP"; python3 -c "import json,sys; json.dump(json.load(open(sys.argv[1])), open('selftest/mutants.$TAG.json','w'), indent=1)" "$TMP"; rm -f "$TMP"
